@@ -9,7 +9,7 @@ class `cls c` (`0` for None, `v + 1` otherwise).  Lists are comma separated, `-`
 
   chunked <size> <count|-> <fill|-> <xs>
   windowed <size> <fill|-> <xs>          pairwise <end|-> <xs>
-  split <sep> <maxsplit|-> <xs>          sep: n | v<code> | s<codes> | c<codes>
+  split <sep> <maxsplit|-> <xs>          sep: n | v<code> | t<codes> (a str separator) | s<codes> | c<codes>
   lstrip|rstrip|strip <code> <xs>
   unique <key> <xs>                      key: id | mod<k> | div<k> | const | bool | real | imag | den | nope
   redundant <key> <0|1> <xs>
@@ -18,6 +18,8 @@ class `cls c` (`0` for None, `v + 1` otherwise).  Lists are comma separated, `-`
   chunk_ranges <size> <chunk> <offset> <overlap> <0|1>
   pysplit <sep> <maxsplit|-> <xs>        (the Lean spec of str.split, sep: n | v<code>)
   pystrip <l|r|b> <code> <xs>            (the Lean spec of str.l/r/strip)
+Numeric arguments (`size`, `count`, `maxsplit`, the chunk_ranges numbers) are `Param` tokens:
+`5` / `-1` an int, `h5` the float 2.5 (halves), `bT` / `bF` a bool.
 Output: `ok <value>` or `err <ExceptionClass>`.
 -/
 namespace C09.Driver
@@ -33,6 +35,7 @@ def showLL (l : List (List Nat)) : String :=
 def showErr : Err → String
   | .valueError => "err ValueError"
   | .outside => "bad-op"
+  | .typeError => "err TypeError"
 
 def showRes (r : Except Err (List (List Nat))) : String :=
   match r with
@@ -45,32 +48,54 @@ def optInt? (s : String) : Option (Option Int) :=
 def optNat? (s : String) : Option (Option Nat) :=
   if s = "-" then some none else s.toNat?.map some
 
-/-- separator token → (predicate, grouping) -/
-def sep? (s : String) : Option ((Nat → Bool) × Bool) :=
+/-- a numeric argument: `5`, `-1` (int), `h5` = 2.5 (float in halves), `bT` / `bF` (bool) -/
+def param? (s : String) : Option Param :=
+  if s = "bT" then some (.bool true)
+  else if s = "bF" then some (.bool false)
+  else if s.startsWith "h" then (s.drop 1).toString.toInt?.map Param.halves
+  else s.toInt?.map Param.int
+
+def optParam? (s : String) : Option (Option Param) :=
+  if s = "-" then some none else (param? s).map some
+
+/-- Python `==` on item codes, and `x == None` -/
+def eqv (x y : Nat) : Bool := cls x == cls y
+def isNoneCode (x : Nat) : Bool := x == 0
+
+/-- separator token → the `sep` argument (the callable of `c<codes>` tests membership of the class) -/
+def sep? (s : String) : Option (Sep Nat) :=
   let rest := (s.drop 1).toString
   match s.front with
-  | 'n' => if rest = "" then some (fun x => x == 0, true) else none
-  | 'v' => rest.toNat?.map fun v => (fun x => cls x == cls v, false)
-  | 's' => (natList? rest).map fun vs => (fun x => (vs.map cls).contains (cls x), false)
-  | 'c' => (natList? rest).map fun vs => (fun x => (vs.map cls).contains (cls x), false)
+  | 'n' => if rest = "" then some .none else none
+  | 'v' => rest.toNat?.map .value
+  | 't' => (natList? rest).map .text
+  | 's' => (natList? rest).map .coll
+  | 'c' => (natList? rest).map fun vs => .func (fun x => (vs.map cls).contains (cls x))
   | _ => none
 
-/-- key token → key function on item codes, into key classes -/
-def key? (s : String) : Option (Nat → Nat) :=
-  if s = "id" ∨ s = "real" ∨ s = "nope" then some cls
-  else if s = "const" then some (fun _ => 1)
-  else if s = "bool" then some (fun c => if c = 0 ∨ val c = 0 then 1 else 2)
-  else if s = "imag" then some (fun c => if c = 0 then 0 else 1)
-  else if s = "den" then some (fun c => if c = 0 then 0 else if tag c = 1 then cls c else 2)
+/-- key token → the `key` argument (item codes → key classes).  Attribute names: `real` exists on every
+    number, `imag` too (always 0), `denominator` on ints and bools only, `no_such_attribute` nowhere;
+    `None` has none of them. -/
+def keyArg? (s : String) : Option (KeyArg Nat Nat) :=
+  if s = "id" then some .none
+  else if s = "real" then some (.attr fun c => if c = 0 then none else some (cls c))
+  else if s = "nope" then some (.attr fun _ => none)
+  else if s = "imag" then some (.attr fun c => if c = 0 then none else some 1)
+  else if s = "den" then some (.attr fun c => if c = 0 ∨ tag c = 1 then none else some 2)
+  else if s = "const" then some (.func fun _ => 1)
+  else if s = "bool" then some (.func fun c => if c = 0 ∨ val c = 0 then 1 else 2)
   else if s.startsWith "mod" then
     match (s.drop 3).toString.toNat? with
-    | some k => if k = 0 then none else some (fun c => val c % k + 1)
+    | some k => if k = 0 then none else some (.func fun c => val c % k + 1)
     | none => none
   else if s.startsWith "div" then
     match (s.drop 3).toString.toNat? with
-    | some k => if k = 0 then none else some (fun c => val c / k + 1)
+    | some k => if k = 0 then none else some (.func fun c => val c / k + 1)
     | none => none
   else none
+
+/-- key token → key function on item codes, into key classes -/
+def key? (s : String) : Option (Nat → Nat) := (keyArg? s).map (keyFunc cls)
 
 def vt? (s : String) : Option (Nat → Nat) :=
   if s = "id" then some id
@@ -94,24 +119,24 @@ def bool? (s : String) : Option Bool :=
 def handle (line : String) : String :=
   match words line with
   | ["chunked", size, count, fill, xs] =>
-    match size.toInt?, optInt? count, optNat? fill, natList? xs with
-    | some size, some count, some fill, some xs => showRes (chunked size count fill xs)
+    match param? size, optParam? count, optNat? fill, natList? xs with
+    | some size, some count, some fill, some xs => showRes (chunkedP size count fill xs)
     | _, _, _, _ => "bad-op"
   | ["windowed", size, fill, xs] =>
-    match size.toInt?, optNat? fill, natList? xs with
-    | some size, some fill, some xs => showRes (windowed size fill xs)
+    match param? size, optNat? fill, natList? xs with
+    | some size, some fill, some xs => showRes (windowedP size fill xs)
     | _, _, _ => "bad-op"
   | ["pairwise", fill, xs] =>
     match optNat? fill, natList? xs with
     | some fill, some xs => showRes (pairwise fill xs)
     | _, _ => "bad-op"
   | ["split", sep, ms, xs] =>
-    match sep? sep, optInt? ms, natList? xs with
-    | some (p, g), some ms, some xs => "ok " ++ showLL (split p g ms xs)
+    match sep? sep, optParam? ms, natList? xs with
+    | some sep, some ms, some xs => "ok " ++ showLL (splitS eqv isNoneCode sep ms xs)
     | _, _, _ => "bad-op"
   | ["pysplit", sep, ms, xs] =>
     match sep? sep, optNat? ms, natList? xs with
-    | some (p, g), some ms, some xs => "ok " ++ showLL (pySplit p g ms xs)
+    | some sep, some ms, some xs => "ok " ++ showLL (pySplit (sepFunc eqv isNoneCode sep) sep.isNone ms xs)
     | _, _, _ => "bad-op"
   | [op, v, xs] =>
     match natList? xs with
@@ -162,9 +187,9 @@ def handle (line : String) : String :=
         | none => "bad-op"
     | _, _, _ => "bad-op"
   | ["chunk_ranges", size, cs, off, ov, al] =>
-    match size.toInt?, cs.toInt?, off.toInt?, ov.toInt?, bool? al with
+    match param? size, param? cs, param? off, param? ov, bool? al with
     | some size, some cs, some off, some ov, some al =>
-      match chunkRanges size cs off ov al with
+      match chunkRangesP size cs off ov al with
       | .ok r => "ok " ++ showRanges r
       | .error e => showErr e
     | _, _, _, _, _ => "bad-op"
